@@ -437,7 +437,12 @@ def run_replay(path: str) -> int:
         res = mod.replay(ctx, d["witness"])
     else:
         res = mod.run_case(ctx, d["case"], ctx.rng(d["case"]))
-    hit = [v for v in res.violations if v["key"] == d["key"]] or res.violations
+    known = load_known()
+    for v in res.violations:
+        if (prop, v["key"]) in known:
+            print(f"KNOWN-FINDING: property={prop} {v['key']} (reproduced by the replay)")
+    fresh = [v for v in res.violations if (prop, v["key"]) not in known]
+    hit = [v for v in fresh if v["key"] == d["key"]] or fresh
     for v in hit[:3]:
         print(f"VIOLATION property={prop} replay={path}")
         print("  key=" + v["key"])
